@@ -293,8 +293,12 @@ func judge(s *session, sequential bool) (fs []finding, st sessionStats, views []
 				}
 			}
 		} else {
-			for _, sn := range d.Snap {
-				byReq[sn.rq].everDialed = true
+			// several requests of the peer in service: the dial is attributed (for the coverage
+			// counters only) to every request that justifies one of its addresses
+			for i := range addrs {
+				for _, j := range just[i] {
+					byReq[d.Snap[j].rq].everDialed = true
+				}
 			}
 			st.add("dials_with_several_requests_of_peer_in_service", 1)
 		}
